@@ -171,6 +171,14 @@ func c16Setup(prm c16Params) func(c *fw.Ctx, name string) explore.Setup {
 						}
 						st.closeErr = conn.Close(websocket.StatusNormalClosure, "bye")
 					})
+				case "both":
+					// both ends close at the same time: the local Close frame is being written
+					// while the reader meets the peer's Close frame
+					w.GoHarness("reader", true, reader)
+					w.GoHarness("peer", false, func() { st.p.Send(peerClose(k, 1000, "peer-bye")) })
+					w.GoHarness("closer", true, func() {
+						st.closeErr = conn.Close(websocket.StatusNormalClosure, "bye")
+					})
 				case "peer":
 					w.GoHarness("reader", true, reader)
 					w.GoHarness("peer", false, func() { st.p.Send(peerClose(k, 1000, "peer-bye")) })
@@ -337,6 +345,9 @@ func c16Scenarios(tier string) []scenario {
 				add(c16Params{Name: "proto-stalled-giveup-" + gu, K: k, Init: "proto", Echo: "early", Stall: true, GiveUp: gu}, P(1), P(2))
 			}
 		}
+		// both ends close at once, with the transport fast and with the Close frame write stalled
+		add(c16Params{Name: "both-w1", K: k, Init: "both", Echo: "never", Writers: 1}, P(1), P(2))
+		add(c16Params{Name: "both-stalled", K: k, Init: "both", Echo: "never", Stall: true, GiveUp: "ping"}, P(1), P(2))
 		for _, init := range []string{"peer", "proto", "limit", "closeread"} {
 			add(c16Params{Name: init + "-w1", K: k, Init: init, Echo: "early", Writers: 1}, P(2), P(3))
 			add(c16Params{Name: init + "-w2", K: k, Init: init, Echo: "early", Writers: 2}, P(1), P(2))
